@@ -288,6 +288,11 @@ def run_scenario(scn, workdir, scheme='structural', name_tables=False, plan=None
     extended output or None), traces, dir."""
     d = pathlib.Path(tempfile.mkdtemp(prefix='run_', dir=workdir))
     conf = materialise(scn, d, scheme, name_tables)
+    if damage == 'missing_out_dir':
+        # the result file is asked for in a directory that does not exist: the run must stop - and tidy up
+        conf['extended_result_path'] = str(d / 'out' / 'run_08' / 'res.json')
+    if damage == 'missing_log_dir':
+        conf['log_path'] = str(d / 'out' / 'run_09' / 'log.txt')
     if damage == 'missing_csv_dir':
         conf['csv_result_path'] = str(d / 'out' / 'run_07' / 'tables' / 'res.csv')
     if damage == 'long_csv_name':
